@@ -954,6 +954,23 @@ class ConvertInstance:
 
             return obj
 
+        def check_operand(obj):
+            # The operands of case statements are read before a branch is taken.
+            # Runtime indices in the reference path of an operand are read too.
+            # (the test of an if statement is a boolean temporary without reference path)
+            if isinstance(obj, _type_qualifier.TypeQualifier):
+                for ref in obj._ref_spec:
+                    if isinstance(ref, _type_qualifier.Offset):
+                        parts = (ref.offset,)
+                    else:
+                        parts = (ref.start, ref.stop)
+
+                    for part in parts:
+                        if isinstance(part, _type_qualifier.TypeQualifier):
+                            check_used_temporaries(part, AccessFlags.READ)
+
+            check_used_temporaries(obj, AccessFlags.READ)
+
         def search_invalid_temporaries(code: ir.CodeBlock):
             nonlocal invalid_temporaries
 
@@ -983,12 +1000,12 @@ class ConvertInstance:
                 elif isinstance(stmt, ir.CodeBlock):
                     local_temporaries |= search_invalid_temporaries(stmt)
                 elif isinstance(stmt, ir.CaseWhen):
-                    check_used_temporaries(stmt._value, AccessFlags.READ)
+                    check_operand(stmt._value)
 
                     always_defined = None
 
                     for branch_cond, branch_code in stmt._branches:
-                        check_used_temporaries(branch_cond, AccessFlags.READ)
+                        check_operand(branch_cond)
                         branch_temporaries = search_invalid_temporaries(branch_code)
                         invalid_temporaries |= branch_temporaries
 
